@@ -148,6 +148,14 @@ pub enum UEnumD {
     Data(FlatVec<u8, u16>),
 }
 
+/// unsized enum whose tag (u16) is wider than every payload field: the tag decides the alignment
+#[flat(sized = false, tag_type = "u16")]
+pub enum UEnumW {
+    A,
+    B(u8),
+    C(FlatVec<u8, u8>),
+}
+
 /// an unrelated multi-segment attribute on a variant BEFORE the `#[default]` one: the default lookup must not mistake it
 #[flat(sized = false, default = true)]
 pub enum UEnumAttr {
